@@ -23,7 +23,9 @@ fn main() {
             return;
         }
     };
+    stats.class(&format!("worker-config:log-level:{}", gpa_verif::runner::configured_log_level()));
     let e2e_assumptions = vec![
+        "odd-numbered workers run the agent under a configured log level other than the default (Info / Warn / Error / Debug, set once per process as the service does from its config file); a violation's replay file records the level",
         "the stand-in audit map (feature verif) stands for the kernel map: lookup/remove by source port with the same record layout",
         "mock metadata hosts on the real addresses inside a private network namespace; every byte they receive is counted",
         "the 500 (policy lookup failure) and unknown-caller refusal classes cannot be provoked from outside on Linux and are not exercised",
